@@ -23,6 +23,7 @@ computations, not of their values.
 import Poulpy.Lemmas.CoreCmp
 import Poulpy.Lemmas.CoreSerDec
 import Poulpy.Lemmas.CoreCmpT
+import Poulpy.Lemmas.CoreSerAll
 
 namespace C19
 open CoreEnc
@@ -251,6 +252,66 @@ open Ser CoreSer in
 example : CoreSer.MatWF ⟨2, 1, 1, 2, 1, List.replicate 32 1⟩ ∧
     (cellsOfState ⟨[6, 3, 1, 1], [⟨2, List.replicate 64 2⟩], [.mat ⟨2, 1, 1, 2, 1, List.replicate 32 1⟩], 64⟩).map List.length = some 2 := by
   unfold CoreSer.MatWF; decide
+
+/-! ### serialisation commutes with decompression, every single-layout compressed type -/
+
+open Ser CoreSerAll in
+/-- **all eight matrix-shaped compressed types** (`GGLWECompressed`, `GGSWCompressed`, `GLWETensorKeyCompressed`,
+`GLWESwitchingKeyCompressed`, `LWESwitchingKeyCompressed`, `LWEToGLWEKeyCompressed`, `GLWEToLWEKeyCompressed`,
+`GLWEAutomorphismKeyCompressed`), with the reader and writer C18's tables assign to the type: for every admissible source `x`
+(header fields within their wire widths, `count` seeds of 32 bytes, well-formed consistent matrix) and every same-shaped
+receiver `s` with the capacity, in both build profiles: the write succeeds with bytes `bs`; the read of `bs ++ tail` succeeds,
+leaves `tail`, and returns a state with the source's header fields and seeds whose stored cells `(index, body limbs decoded
+from the bytes, seed words)` are the source's — hence `decompress_glwe` of every cell (`Core.decompressCell`, the object of
+`compressed_cells_eq`) gives the same ciphertext: `decompress (read (write c)) = decompress c`, cell by cell. -/
+theorem matrix_compressed_serialise_decompress (ty : String) (hty : ty ∈ compressedMatTypes) :
+    ∃ (r : Rd St Unit) (w : Profile → St → Outcome Bytes), readerOf ty = some r ∧ (∀ p, writerOf p ty = some (w p)) ∧
+      ∀ (p : Profile) (x s : St) (tail : Bytes), FieldsFit (hdrWidths ty) x.fields → s.fields.length = x.fields.length →
+        SeedsOK .many x s → LeafOK .mat x s →
+        ∃ bs rs', w p x = .ok bs ∧ r s (bs ++ tail) = .ok () rs' tail ∧ rs'.fields = x.fields ∧ rs'.seeds = x.seeds ∧
+          cellsOf rs' = cellsOf x ∧
+          ∀ (expand : List Nat → List Nat) (b n rank : Nat), decompressCells expand b n rank rs' = decompressCells expand b n rank x := by
+  simp only [compressedMatTypes, List.mem_cons, List.mem_nil_iff, or_false] at hty
+  rcases hty with rfl | rfl | rfl | rfl | rfl | rfl | rfl | rfl
+  all_goals first
+    | exact ⟨_, _, rfl, fun _ => rfl, mat_commutes' rt_gglwe_c⟩
+    | exact ⟨_, _, rfl, fun _ => rfl, mat_commutes' rt_switching_c⟩
+    | exact ⟨_, _, rfl, fun _ => rfl, mat_commutes' rt_autokey_c⟩
+
+open Ser CoreSerAll in
+/-- non-vacuity: an automorphism key compressed with `p = −5`, two cells -/
+example : "glwe_automorphism_key_compressed" ∈ compressedMatTypes ∧
+    (cellsOf ⟨[2 ^ 64 - 5, 6, 3, 1, 1], [⟨2, List.replicate 64 2⟩], [.mat ⟨2, 1, 1, 2, 1, List.replicate 32 1⟩], 64⟩).map List.length = some 2 ∧
+    FieldsFit (hdrWidths "glwe_automorphism_key_compressed") [2 ^ 64 - 5, 6, 3, 1, 1] := by
+  refine ⟨by decide, by decide, rfl, ?_⟩
+  intro i hi _
+  have : i = 0 ∨ i = 1 ∨ i = 2 ∨ i = 3 ∨ i = 4 := by simp [hdrWidths] at hi; omega
+  rcases this with rfl | rfl | rfl | rfl | rfl <;> decide
+
+open Ser CoreSerAll in
+/-- **the two vector-shaped compressed types** (`GLWECompressed`, `LWECompressed`): same statement; the receiver stands for
+the same compressed GLWE (`glweOfState`, hence the same `decompress_glwe`) and `decompress_lwe` of the received state into an
+LWE of any dimension `nl` equals that of the source. -/
+theorem vector_compressed_serialise_decompress (ty : String) (hty : ty ∈ compressedVecTypes) :
+    ∃ (r : Rd St Unit) (w : Profile → St → Outcome Bytes), readerOf ty = some r ∧ (∀ p, writerOf p ty = some (w p)) ∧
+      ∀ (p : Profile) (x s : St) (tail : Bytes), FieldsFit (hdrWidths ty) x.fields → s.fields.length = x.fields.length →
+        SeedsOK .one x s → LeafOK .vec x s → ∀ (expand : List Nat → List Nat) (nl : Nat),
+        ∃ bs rs', w p x = .ok bs ∧ r s (bs ++ tail) = .ok () rs' tail ∧ rs'.fields = x.fields ∧ rs'.seeds = x.seeds ∧
+          (CoreSer.glweOfState expand rs').bind Core.decompressGlwe = (CoreSer.glweOfState expand x).bind Core.decompressGlwe ∧
+          lweOfState expand nl rs' = lweOfState expand nl x := by
+  simp only [compressedVecTypes, List.mem_cons, List.mem_nil_iff, or_false] at hty
+  rcases hty with rfl | rfl
+  all_goals
+    refine ⟨_, _, rfl, fun _ => rfl, ?_⟩
+    intro p x s tail hf hl hs hleaf expand nl
+    obtain ⟨bs, rs', h1, h2, h3, h4, h5, h6⟩ := vec_commutes rt_glwe_c p x s tail hf hl hs hleaf expand nl
+    exact ⟨bs, rs', h1, h2, h3, h4, by rw [h5], h6⟩
+
+open Ser CoreSerAll in
+/-- non-vacuity: an LWE compressed state with two limbs decompresses -/
+example : "lwe_compressed" ∈ compressedVecTypes ∧
+    (lweOfState (fun s => s ++ [5, 6, 7, 8, 9, 10]) 2 ⟨[6, 3], [⟨1, List.replicate 32 2⟩], [.vec ⟨1, 1, 2, 2, List.replicate 16 1⟩], 0⟩).isSome := by
+  decide
 
 /-! ### the scratch temporary, tensor keys, blind-rotation keys, LWE -/
 
